@@ -217,7 +217,19 @@ pub fn exec(case: &Value) -> Vec<Value> {
                 }
             };
             let run = |text: &str| run_in(text, false);
+            // the same text through the corruption of the other segmentation mode first (on this thread, result unused):
+            // what is remembered about the text there must not show here
+            let _ = guard(|| {
+                let f = preprocessing(PreprocessingFnConfig::WhitespaceCorruption(Part::Input, iw, dw, !g));
+                f(TrainData::new(text.to_string(), None), TextDataInfo { seed, ..Default::default() }).is_ok()
+            });
             let (out, tgt) = run(&text).unwrap_or_else(|m| { fail("corrupt", m); (String::new(), String::new()) });
+            // the library's own operations / repair on (corrupted input, original text)
+            let lib: Value = match guard(|| operations(&out, &text, g).and_then(|ops| repair(&out, &ops, g))) {
+                Ok(Ok(s)) => json!({"ok": true, "cps": cp.cps(&s)}),
+                Ok(Err(_)) => json!({"ok": false, "cps": []}),
+                Err(m) => { fail("operations_repair", m); json!({"ok": false, "cps": []}) }
+            };
             let (out2, _) = run(&text).unwrap_or_default();
             let (out3, _) = run_in(&text, true).unwrap_or_default();
             // labels of the whitespace-correction task for (corrupted input, original target)
@@ -247,7 +259,7 @@ pub fn exec(case: &Value) -> Vec<Value> {
             let cls = |p: f64| if p <= 0.0 { "zero" } else if p >= 1.0 { "one" } else { "mid" };
             json!({"kind": "corrupt", "g": g, "fusable": fusable, "text": text, "tv": cp.view(&text, g), "ov": cp.view(&out, g),
                    "out": out, "same_again": out == out2 && out == out3, "target_cps": cp.cps(&tgt), "text_cps": cp.cps(&text),
-                   "iw": cls(iw), "dw": cls(dw), "seed": seed, "task": labels, "npfx": npfx, "nsfx": nsfx, "nbytes": out.len()})
+                   "iw": cls(iw), "dw": cls(dw), "seed": seed, "task": labels, "npfx": npfx, "nsfx": nsfx, "nbytes": out.len(), "lib": lib})
         }
     };
     let mut rec = rec;
